@@ -2,7 +2,7 @@
 import z3
 from .core import *
 
-TRACE_REF = 400000      # the ghost trace list object
+TRACE_REF = 600000      # the ghost trace list object (outside the range of pre-state refs and of parameter refs)
 
 KIND_LIST, KIND_BYTES, KIND_BYTEARRAY = 0, 1, 2
 
@@ -29,6 +29,9 @@ def wf_ref(st, name, base_term, loaded):
         return
     if base_term is not None:
         st.pc.append(z3.And(base_term >= 0, base_term < PARAM_REF_BASE))
+        if z3.simplify(base_term).get_id() == loaded.get_id():
+            st.pre_refs.add(loaded.get_id())
+            st.pre_keep.append(loaded)
     nr = st.next_ref_term()
     st.pc.append(z3.And(loaded >= 0, loaded < nr))
 
@@ -200,6 +203,8 @@ def store_typed(st, T_, v, put):
                 put(suf, k, term)
         return
     alts = flatten_union(v)
+    if len(alts) > 1 and not st.spec:
+        alts = [(c, a) for c, a in alts if st.feasible(c)]
     term = None
     for c, a in alts:
         t = single_term(st, T_, a)
